@@ -35,6 +35,7 @@ bool verif_thrown;
 #define VERIF_RET
 #define NO_LABEL (-1)
 #define VMAX(a, b) ((a) > (b) ? (a) : (b))
+#define VMIN(a, b) ((a) < (b) ? (a) : (b))
 /* value v is representable by an n-byte PFIX/NFIX chain ending in an instruction (C04's emit contract) */
 #define FITS(v, n) ((n) >= 1 && (n) <= 8 && (((v) >= 0) ? ((n) == 8 || (((uint32_t)(v)) >> (4 * (n))) == 0u) \
                                                       : ((n) >= 2 && ((n) == 8 || (((uint32_t)(v)) >> (4 * (n))) == (0xFFFFFFFFu >> (4 * (n)))))))
